@@ -93,6 +93,7 @@ type Node struct {
 	// (a function of the path) instead of a value unique to the file;
 	// GroupBy (Concatenator): GroupByTag
 	TagGroups int
+	TagSkip   int // with TagGroups: about one file in TagSkip gets no tag at all
 	GroupBy   string
 	JoinMod string // a second occurrence of the first joined in-port, with this modifier, passed as -note
 	Rec     bool // a pass-through recorder is attached to every out-port edge
